@@ -376,6 +376,14 @@ def run(ctx):
         ctx.count("kind:" + c["kind"])
         if "error" in o:
             ctx.case_seen(c, False)
+            if c["kind"] == "history" and not c.get("no_index_buffer_writes"):
+                # a write through a returned pandas Index (the known finding) can leave the matrix with
+                # duplicate labels, after which a later accessor raises: the same history without those writes
+                # decides whether that is what happened
+                o2 = run_history(dict(c, no_index_buffer_writes=True))
+                if "error" not in o2 and not o2["diffs"] and ctx.known_finding(KF, KF_TEXT):
+                    ctx.count("known:index_buffer_write_then_raise")
+                    continue
             ctx.disagree(c, {"what": "history raised", "exc": o["error"]})
             continue
         ctx.case_seen(c, o["accepted"] > 0)
